@@ -22,6 +22,8 @@ func TestVerif(t *testing.T) {
 	defer out.Close()
 	r := vfh.NewRand(vfh.Seed())
 	switch prop {
+	case "C04":
+		verifC04Paths(t, r, out)
 	case "C05":
 		verifC05(t, r, out)
 	case "C06":
